@@ -383,7 +383,8 @@ func (l *lcall) isDone() bool { l.mu.Lock(); defer l.mu.Unlock(); return l.done 
 
 // settle yields until the observable state has not changed for several
 // consecutive yields (with GOMAXPROCS(1) one yield normally drains every
-// runnable goroutine; the repetition covers the scheduler's fairness ticks).
+// runnable goroutine; the repetition covers the scheduler's fairness ticks),
+// and then also across a short real sleep of the driver.
 func (w *world) settle() {
 	if w.timed {
 		w.settleTimed()
@@ -398,7 +399,13 @@ func (w *world) settle() {
 		if fp == last && !w.pending() {
 			stable++
 			if stable >= need {
-				return
+				// belt and braces: block the driver for a moment (every other goroutine of the
+				// single P runs until it blocks) and look again
+				time.Sleep(100 * time.Microsecond)
+				if w.fingerprint() == last && !w.pending() {
+					return
+				}
+				stable = 0
 			}
 		} else {
 			stable = 0
